@@ -758,7 +758,7 @@ T('C13', 'twin-renderer-rebuilds-config', PP, '        config = copy.copy(config
 M('C16', 'decision-printer-renders-similar-insert', PP, '    diff_keys = ("diff", "local_diff", "remote_diff", "custom_diff")', '    diff_keys = ("diff", "local_diff", "remote_diff", "custom_diff", "similar_insert")', 'R16.14')
 T('C16', 'twin-decision-printer-key-list', PP, '    diff_keys = ("diff", "local_diff", "remote_diff", "custom_diff")', '    diff_keys = ["local_diff", "remote_diff", "custom_diff", "diff"]')
 M('C16', 'cell-printer-attribute-access', PP, '        pretty_print_metadata(\n            metadata,\n            known_cell_metadata_keys,', '        pretty_print_metadata(\n            cell.metadata,\n            known_cell_metadata_keys,', 'R16.15')
-M('C16', 'output-printer-attribute-access', PP, '    metadata = output.get("metadata")\n    if metadata:', '    metadata = output.metadata\n    if metadata:', 'R16.15')
+M('C16', 'output-printer-attribute-access', PP, '    metadata = output.get("metadata")\n    if metadata and config.metadata:', '    metadata = output.metadata\n    if metadata and config.metadata:', 'R16.15')
 M('C16', 'diff-temp-file-strict-encoding', PP, "        with io.open(os.path.join(td, 'after'), 'w', encoding=\"utf8\",\n                     errors=\"surrogatepass\") as f:", "        with io.open(os.path.join(td, 'after'), 'w', encoding=\"utf8\") as f:", 'R16.16')
 M('C07', 'merge-temp-file-strict-encoding', PP, "        with io.open(os.path.join(td, 'remote'), 'w', encoding=\"utf8\",\n                     errors=\"surrogatepass\") as f:", "        with io.open(os.path.join(td, 'remote'), 'w', encoding=\"utf8\") as f:", 'R07.10')
 M('C16', 'tool-output-strict-decoding', PP, "        output = output.decode('utf8', errors='surrogatepass')\n        r = re.compile(", "        output = output.decode('utf8')\n        r = re.compile(", 'R16.16')
@@ -1002,3 +1002,7 @@ M('C12', 'key-filter-wrapped-around-key-filter', NBD, "            notebook_diff
 M('C01', 'nbpatch-output-opened-before-serialising', 'nbdime/nbpatchapp.py', "        with io.open(output_filename, \"wb\") as outfile:\n            outfile.write(data)\n", "        nbformat.write(after, output_filename)\n", 'R01.22')
 M('C02', 'strict-comparison-without-signed-zero-clause', GEN, "    if isinstance(x, float) and isinstance(y, float) and x == y == 0:\n        # 0.0 == -0.0, but they are written differently\n        return math.copysign(1.0, x) == math.copysign(1.0, y)\n", "", 'R02.23')
 M('C02', 'unrecursed-values-compared-shallowly', GEN, "            if not strict_equal(avalue, bvalue):\n                di.replace(key, bvalue)", "            if not compare_strict(avalue, bvalue):\n                di.replace(key, bvalue)", 'R02.23')
+
+M('C14', 'output-renderer-prints-metadata-unconditionally', PP, '    metadata = output.get("metadata")\n    if metadata and config.metadata:', '    metadata = output.get("metadata")\n    if metadata:', 'R14.20')
+M('C14', 'format-version-not-a-detail-for-the-differ', NBD, "        '/nbformat_minor': not details,\n", "", 'R14.19')
+M('C14', 'printer-hides-every-other-cell-field-as-detail', PP, "        if starred.startswith('/cells/*/execution_count'):\n            return not self.details", "        if starred.startswith('/cells/*/'):\n            return not self.details", 'R14.19')
